@@ -142,6 +142,14 @@ func childP(parentP, parentX string, t *Task, r *Ref, item string) (string, stri
 	if item != "" {
 		p += "." + item
 	}
+	if t.PFromX {
+		// the callee of a "sub" when_changed task: its caller's rendered path carries no X (X reaches only the
+		// sub-call's vars), the callee itself appends the X it received
+		if k := strings.Index(parentP, "["); k >= 0 && strings.HasPrefix(parentP, "@") {
+			p = parentP[:k] + strings.TrimPrefix(p, parentP)
+		}
+		p += "[" + x + "]"
+	}
 	return p, x
 }
 
